@@ -141,8 +141,17 @@ Inductive case :=
 | CCoal (has_to : bool) (frames : list (list Z)) (ctxdone : list (Z * err))
         (faults : list (Z * fkind)) (dlfail : list (Z * Z)) (evs : list cev)
         (results : list (option (Z * option err))) (wire : list Z) (calls : list (Z * Z))
-| CMustClose (coalesce : bool) (frame : list Z) (n : Z) (e : err) (closed : bool).
+| CMustClose (coalesce : bool) (frame : list Z) (n : Z) (e : err) (closed : bool)
    (* a whole Conn: the only request's Write accepted n bytes and returned e; was the connection closed afterwards? *)
+| CConn (coalesce : bool) (frames : list (list Z)) (faults : list (Z * fkind)) (dlfail : list (Z * Z))
+        (devs : list dev) (cevs : list cev)
+        (results : list (option (Z * Z))) (wire : list Z) (calls : list (Z * Z)) (closed : bool).
+   (* a whole Conn with several requests in flight (public API, scripted node).  Requests are numbered in the order in
+      which addCall registered them (C01's event log); frames are what the driver handed to the connection (a one-byte
+      placeholder for a request that never got that far); the order of the writers / the batches is read off the recorded
+      SetWriteDeadline / Write calls; results are exec's view of writeContext as logged at the WriteEnd trace point:
+      (n, class) with class 0 = nil, 1 = context error with n = 0, 2 = any other error; closed: did the driver close the
+      connection in the end.  The model replays the writers, then exec's decision and closeWithError for every request. *)
 
 Definition res_eqb (a : res) (b : Z * option err) : bool :=
   (Z.of_nat (fst a) =? fst b)%Z && opt_eqb err_eqb (snd a) (snd b).
@@ -159,6 +168,21 @@ Definition calls_match (h : list (nat * nat)) (cs : list (Z * Z)) : bool :=
   (length h =? length cs) &&
   forallb (fun ab => (Z.of_nat (fst (fst ab)) =? fst (snd ab))%Z && (Z.of_nat (snd (fst ab)) =? snd (snd ab))%Z) (combine h cs).
 
+(* the class of a write result as the WriteEnd trace point records it (verifWriteClass) *)
+Definition write_class (r : res) : Z :=
+  match r with
+  | (_, None) => 0%Z
+  | (n, Some e) => if is_ctx_err e && (n =? 0) then 1%Z else 2%Z
+  end.
+
+Definition classes_match (th : threads) (k : nat) (rs : list (option (Z * Z))) : bool :=
+  (length rs =? k) &&
+  forallb (fun ir => match result_of th (fst ir), snd ir with
+                     | Some a, Some b => (Z.of_nat (fst a) =? fst b)%Z && (write_class a =? snd b)%Z
+                     | None, None => true
+                     | _, _ => false
+                     end) (combine (seq 0 k) rs).
+
 Definition mk_env (faults : list (Z * fkind)) (dlfail : list (Z * Z)) : env :=
   mkE 0 (map (fun ok => (Z.to_nat (fst ok), snd ok)) faults) None 0 (map (fun oc => (Z.to_nat (fst oc), snd oc)) dlfail).
 
@@ -166,6 +190,16 @@ Definition try_d (has_to : bool) (s : dstate) (l : dlabel) : dstate :=
   match dstep has_to s l with Some s' => s' | None => s end.
 Definition try_c (has_to : bool) (s : cstate) (l : clabel) : cstate :=
   match cstep has_to s l with Some s' => s' | None => s end.
+
+(* exec's decision and closeWithError for every request that has a result *)
+Definition d_tail (s : dstate) (k : nat) : dstate :=
+  let s1 := fold_left (fun s t => try_d true s (DAfter t)) (seq 0 k) s in
+  let s2 := fold_left (fun s t => try_d true s (DCancel t)) (seq 0 k) s1 in
+  fold_left (fun s t => try_d true s (DClose t)) (seq 0 k) s2.
+Definition c_tail (s : cstate) (k : nat) : cstate :=
+  let s1 := fold_left (fun s t => try_c true s (CAfter t)) (seq 0 k) s in
+  let s2 := fold_left (fun s t => try_c true s (CCancel t)) (seq 0 k) s1 in
+  fold_left (fun s t => try_c true s (CClose t)) (seq 0 k) s2.
 
 Definition check (c : case) : bool :=
   match c with
@@ -197,6 +231,22 @@ Definition check (c : case) : bool :=
       else
         match drun true d_init [DCall frame; DAcquire 0; DStartWrite 0 None; DChunk 0 k; DWriteRet 0 (Some e); DAfter 0] with
         | Some s => Bool.eqb (d_connclosed (try_d true (try_d true s (DCancel 0)) (DClose 0))) closed
+        | None => false
+        end
+  | CConn coalesce frames faults dlfail devs cevs results wire calls closed =>
+      let k := length frames in
+      if coalesce then
+        match bind (crun true c_init (map CCall frames)) (fun s => drive_coal true s (mk_env faults dlfail) cevs) with
+        | Some (s, _) =>
+            classes_match (c_thr s) k results && zlist_eqb (map snd (c_wire s)) wire && calls_match (c_hist s) calls
+            && Bool.eqb (c_connclosed (c_tail s k)) closed
+        | None => false
+        end
+      else
+        match bind (drun true d_init (map DCall frames)) (fun s => drive_direct true s (mk_env faults dlfail) devs) with
+        | Some (s, _) =>
+            classes_match (d_thr s) k results && zlist_eqb (map snd (d_wire s)) wire && calls_match (d_hist s) calls
+            && Bool.eqb (d_connclosed (d_tail s k)) closed
         | None => false
         end
   end.
